@@ -9,6 +9,7 @@ import (
 	"github.com/aldas/go-modbus-client/packet"
 	"math/rand"
 	"net"
+	"sync"
 	"time"
 
 	"github.com/aldas/go-modbus-client/server"
@@ -460,6 +461,47 @@ func runB(c *Case, r *mon.Rec, rng *rand.Rand, frames [][]byte, ref [][]byte, h 
 		})
 		r.Cover("layer", "B-slow-handler")
 	}
+	// the handler looks at its context the way a gateway that forwards the request would: a context that has already
+	// ended when the handler is entered means the request cannot be served
+	var ctxMu sync.Mutex
+	ctxBad := ""
+	inner2 := h2
+	h2 = srvx.HandlerFunc(func(ctx context.Context, req packet.Request) (packet.Response, error) {
+		if e := ctx.Err(); e != nil {
+			ctxMu.Lock()
+			ctxBad = e.Error()
+			ctxMu.Unlock()
+		}
+		return inner2.Handle(ctx, req)
+	})
+	// half of the runs plug in an assembler of their own (a checking wrapper around the default one)
+	var checkers []*srvx.CheckAssembler
+	var chkMu sync.Mutex
+	if c.Seed%2 == 1 {
+		s.AssemblerCreatorFunc = func(h server.ModbusHandler) server.PacketAssembler {
+			ca := &srvx.CheckAssembler{Inner: &server.ModbusTCPAssembler{Handler: h}}
+			chkMu.Lock()
+			checkers = append(checkers, ca)
+			chkMu.Unlock()
+			return ca
+		}
+		r.Cover("layer", "B-custom-assembler")
+	}
+	defer func() {
+		ctxMu.Lock()
+		if ctxBad != "" {
+			r.Violate(c, "handler-context-ended", mon.Attrs{"layer": "B"}, "a handler was entered with a context that had already ended ("+ctxBad+") while its connection was alive and the server running")
+		}
+		ctxMu.Unlock()
+		chkMu.Lock()
+		for _, ca := range checkers {
+			for _, pr := range ca.Problems() {
+				r.Violate(c, "assembler-arguments-inconsistent", mon.Attrs{"layer": "B"}, pr)
+				break
+			}
+		}
+		chkMu.Unlock()
+	}()
 	go func() { served <- s.Serve(ctx, l, h2) }()
 	defer func() {
 		sctx, sc := context.WithTimeout(context.Background(), 3*time.Second)
